@@ -91,6 +91,7 @@ def pick_quick(cfgs, seed, meta):
     rnd = random.Random(seed * 101 + 10)
     extra = rnd.choice(rest)
     heavy = {f for f, c in COST.items() if c >= 2.5} | {"viewshed"}
+    same_code = {"allocation", "direction", "polygonize_mask"}    # share proximity's / polygonize's code path; int via those
     sel = []
     for c in cfgs:
         key = (c["dtype"], c["layout"])
@@ -98,9 +99,9 @@ def pick_quick(cfgs, seed, meta):
             sel.append(dict(c, finite=True))
             if meta[c["f"]]["nan_inputs"]:
                 sel.append(dict(c))
-        elif key == ("int32", "C"):
+        elif key == ("int32", "C") and ((c["backend"] == "numpy" and c["f"] not in same_code) or c["f"] not in heavy):
             sel.append(dict(c))
-        elif c["backend"] == "numpy" and key == ("float32", "C"):
+        elif c["backend"] == "numpy" and key == ("float32", "C") and c["f"] not in heavy:
             sel.append(dict(c))
         elif c["backend"] == "numpy" and key == extra and c["f"] not in heavy:
             sel.append(dict(c))
@@ -274,10 +275,10 @@ def model_part(ctx):
     # negative twin: the mechanism perlin had before /repo c6e6981 (writes into the template): rejected by both clauses separately
     for p in ("InputsUntouchedP", "NoAliasP"):
         ctx.model_check("Aliasing", dict(spec="Spec", properties=[p], view="MCView",
-                                         constants=mc_constants(perlin="asis", nobj=1)), "perlin_asis_" + p, expect="violation", workers=2)
+                                         constants=mc_constants(perlin="asis", nobj=1)), "perlin_asis_" + p, expect="violation", workers=1)
     for mut, prop in TWINS:
         ctx.model_check("Aliasing", dict(spec="Spec", properties=[prop], view="MCView",
-                                         constants=mc_constants(mut=mut)), "neg_" + mut, expect="violation", workers=2)
+                                         constants=mc_constants(mut=mut)), "neg_" + mut, expect="violation", workers=1)
     # why a fixture of one dtype cannot expose it: the astype twins are invisible when only int32 rasters exist
     for mut in ("astype_noop_return", "astype_noop_inplace"):
         r = ctx.model_check("Aliasing", dict(spec="Spec", properties=props, view="MCView",
@@ -319,8 +320,9 @@ def replay_part(ctx, rng, focus):
         extra = None
     else:
         sel, extra = pick_quick(allcfgs, ctx.seed, meta)
-        ctx.note("quick tier: every function on float64/C all-finite (+ NaN-bearing where it takes NaN) and int32/C on both "
-                 "backends; float32/C on numpy; seeded %s on numpy without the JIT-heavy functions" % (extra,))
+        ctx.note("quick tier: every function on float64/C all-finite (+ NaN-bearing where it takes NaN) on both backends and "
+                 "on int32/C on numpy; without the ten JIT-heavy functions: int32/C on dask, float32/C and seeded %s on numpy"
+                 % (extra,))
     jobs = config_jobs(sel)
     ncfg = len(jobs)
     # other parameter variants of every function (quick: float64/C; thorough: four configurations)
@@ -339,8 +341,8 @@ def replay_part(ctx, rng, focus):
                      "backend": c["backend"]}]})
     nvar = len(jobs) - ncfg
     # ---------------------------------------------------------------- T: call sequences generated by TLC
-    sjobs = session_jobs(ctx, ctx.pick(16, 400), ctx.pick(4, 6), rng, len(jobs))
-    sjobs += session_jobs(ctx, ctx.pick(12, 200), 3, rng, len(jobs) + len(sjobs), pipelines=True)
+    sjobs = session_jobs(ctx, ctx.pick(10, 400), ctx.pick(4, 6), rng, len(jobs))
+    sjobs += session_jobs(ctx, ctx.pick(8, 200), 3, rng, len(jobs) + len(sjobs), pipelines=True)
     if focus:
         sjobs = [j for j in sjobs if any(c["f"] in focus for c in j["calls"])][:12]
     jobs += sjobs
